@@ -1854,6 +1854,10 @@ func (fc *FuncCtx) checkLikeArg(like string, fv *FuncVal) string {
 				return ""
 			}
 		}
+		// a named wrapper `func W(p..) R { return F(x, p..) }` is treated like the literal with that body
+		if lit := namedAsLiteral(fv); lit != nil {
+			return fc.checkLikeArg(like, lit)
+		}
 		return "named function " + fv.Name + " is not " + target
 	case "lit":
 		if len(fv.Lit.Body.List) != 1 {
@@ -1898,11 +1902,40 @@ func (fc *FuncCtx) checkLikeArg(like string, fv *FuncVal) string {
 	return "unsupported function value"
 }
 
+// namedAsLiteral: a declared function whose body is a single `return F(...)` seen as the literal with that body
+// (its free variables are package-level names only).
+func namedAsLiteral(fv *FuncVal) *FuncVal {
+	if fv == nil || fv.Ref == nil || fv.Ref.Decl == nil || fv.Ref.Decl.Body == nil || len(fv.Ref.Decl.Body.List) != 1 || fv.Ref.Decl.Recv != nil {
+		return nil
+	}
+	if _, ok := fv.Ref.Decl.Body.List[0].(*ast.ReturnStmt); !ok {
+		return nil
+	}
+	lit := &ast.FuncLit{Type: fv.Ref.Decl.Type, Body: fv.Ref.Decl.Body}
+	return &FuncVal{Kind: "lit", Lit: lit, Env: &St{vars: map[types.Object]Term{}}, Sig: fv.Sig, Info: fv.Ref.Pkg.TypesInfo}
+}
+
 // checkLikeBinding: a literal `func(..) { return F(x, y, $k..) }` handed over for a like-parameter fixes the
 // arguments of F at the free positions.  The preconditions of F that concern ONLY those arguments are proved
 // here (in the closure's defining state); the ones that concern the callback's own arguments are proved at
 // each call through the parameter.
 func (fc *FuncCtx) checkLikeBinding(like string, fv *FuncVal, calleeKey, pname string, st *St) {
+	if fv != nil && fv.Kind == "named" {
+		// the facade functions refer to each other in a cycle: each (function, like-contract) pair is examined once
+		// per hand-over (the check is coinductive: a pair met again is the one being established)
+		vk := fv.Name + "|" + like
+		if fc.likeVisiting == nil {
+			fc.likeVisiting = map[string]bool{}
+		}
+		if fc.likeVisiting[vk] {
+			return
+		}
+		fc.likeVisiting[vk] = true
+		defer delete(fc.likeVisiting, vk)
+		if lit := namedAsLiteral(fv); lit != nil {
+			fv = lit
+		}
+	}
 	if fv == nil || fv.Kind != "lit" || fv.Lit == nil || len(fv.Lit.Body.List) != 1 {
 		return
 	}
